@@ -19,16 +19,19 @@ def run_property(prop: str, tier: str) -> int:
     except ModuleNotFoundError:
         print(f'ENGINE-ERROR: no check module for {prop}')
         return 3
-    try:
-        mod.run(sess)
-        infrastructure(sess)
-    except Unsupported as exc:
-        sess.errors.append(f'unsupported: {exc}')
-    except EngineError as exc:
-        sess.errors.append(f'engine self-check failed: {exc}')
-    except Exception as exc:   # engine crash: never a violation
-        traceback.print_exc()
-        sess.errors.append(f'engine crash: {type(exc).__name__}: {exc}')
+    # the infrastructure contracts are checked even when the property's own run stops on an engine error: a change to
+    # schema.sql or a constant table can both break the property and make the main run crash (violations take
+    # precedence over engine errors in the exit code)
+    for step in (mod.run, infrastructure, finding_probes):
+        try:
+            step(sess)
+        except Unsupported as exc:
+            sess.errors.append(f'unsupported: {exc}')
+        except EngineError as exc:
+            sess.errors.append(f'engine self-check failed: {exc}')
+        except Exception as exc:   # engine crash: never a violation
+            traceback.print_exc()
+            sess.errors.append(f'engine crash: {type(exc).__name__}: {exc}')
     return sess.finish()
 
 
@@ -51,6 +54,29 @@ def infrastructure(sess: Session):
     for ob in obs:
         if ob.name not in seen:
             sess.check(ob)
+
+
+def finding_probes(sess: Session):
+    """Recorded findings that carry a `probe` (a demo script under known_findings/, run against the current /repo):
+    exit 1 = the recorded input still fails -> reported as that KNOWN-FINDING; exit 0 = it no longer fails (nothing is
+    printed); anything else = harness failure (exit 3, never a violation).  Only the recorded input is covered: any
+    other failure of the property goes through the obligations of the check."""
+    import subprocess
+    from vc.core import REPO
+    for fid, f in sess.findings.items():
+        if f.get('status') != 'open' or not f.get('probe') or sess.prop not in f.get('property_ids', []):
+            continue
+        env = dict(os.environ, PYTHONPATH=str(REPO))
+        p = subprocess.run([sys.executable, str(ROOT / 'known_findings' / f['probe'])], env=env, capture_output=True,
+                           text=True, timeout=600, cwd=str(ROOT / 'known_findings'))
+        tail = (p.stdout + p.stderr).strip()[-1200:]
+        if p.returncode == 1:
+            sess.violation_direct(f'probe:{fid}:{f["probe"]}', tail, {'kind': 'finding-probe', 'probe': f['probe']},
+                                  reproduced=True, finding=fid, functions=tuple(f.get('functions', ())))
+        elif p.returncode != 0:
+            sess.errors.append(f'probe {f["probe"]} of {fid} failed to run (exit {p.returncode}): {tail[-300:]}')
+        sess.add_bounded(f'known finding {fid}', f'the recorded input ({f["probe"]})', 1, 'native demo',
+                         ok=True, note='reproduces' if p.returncode == 1 else 'no longer reproduces')
 
 
 def replay(path: str) -> int:
